@@ -269,6 +269,8 @@ func TestVF_C15_Wiring(t *testing.T) {
 		{Policy: true, AllowedAdmin: []string{"DescribeCluster"}, Transport: "mux-server", Bypass: true},
 		{Policy: true, AllowedAdmin: []string{"DescribeCluster"}, Transport: "tcp", IntraMarker: true},
 		{Policy: true, AllowedAdmin: []string{"DescribeCluster"}, Transport: "tcp", WithNS: true},
+		{Policy: true, AllowedAdmin: []string{""}, Transport: "tcp"},
+		{Policy: true, AllowedAdmin: []string{" ", ""}, Transport: "mux-server"},
 		{Policy: true, AllowedAdmin: []string{"StreamWorkflowReplicationMessages", "AddOrUpdateRemoteCluster"}, Transport: "mux-client"},
 	}
 	for _, c := range fixed {
